@@ -189,136 +189,146 @@ func (r *c14Run) do(t *rapid.T, thread int, op string) {
 func c14Units(tier string, seed int64) []Unit {
 	quick := tier != "thorough"
 	var units []Unit
-	for _, sc := range c14Scenarios(quick) {
-		sc := sc
-		units = append(units, Unit{Name: "C14/" + sc.name, Run: func(c *Ctx) {
-			bound := 3
-			if !quick {
-				bound = 4
+	// thorough: the preemption bound is iterated (every scenario at 4, then every scenario at 6), so that
+	// a cap cuts the deeper layer only
+	bounds := []int{3}
+	if !quick {
+		bounds = []int{4, 6}
+	}
+	for _, bound := range bounds {
+		for _, sc := range c14Scenarios(quick) {
+			sc, bound := sc, bound
+			uname := "C14/" + sc.name
+			if bound > 4 {
+				uname += fmt.Sprintf("/preemptions<=%d", bound)
 			}
-			d := &SchedDFS{Bound: bound, MaxSteps: 2000, MaxExecs: 400000}
-			if !quick {
-				d.MaxExecs = 3000000
-			}
-			c.R.Bounds = fmt.Sprintf("preemption bound %d", bound)
-			var run *c14Run
-			var res rapid.VerifResult
-			tb := NewTB("C14")
-			body := func() {
-				run = &c14Run{ctxIDs: map[context.Context]int{}, cleanups: map[int]int{}}
-				r := run
-				words := []uint64{1, 0, 1, 1, 0, 0, 1, 0}
-				res = rapid.VerifRunBuf(tb, words, sc.verbose, func(t *rapid.T) {
-					var hs []*vsync.Handle
-					if sc.late {
-						r.regs++
-						id := r.regs
-						t.Cleanup(func() {
-							r.cleanups[id]++
-							for _, h := range hs {
-								h.Join()
-							}
-						})
+			units = append(units, Unit{Name: uname, Run: func(c *Ctx) {
+				d := &SchedDFS{Bound: bound, MaxSteps: 2000, MaxExecs: 400000}
+				if !quick {
+					d.MaxExecs = 3000000
+				}
+				if bound > 4 {
+					d.MaxExecs = 20000000
+				}
+				c.R.Bounds = fmt.Sprintf("preemption bound %d", bound)
+				var run *c14Run
+				var res rapid.VerifResult
+				tb := NewTB("C14")
+				body := func() {
+					run = &c14Run{ctxIDs: map[context.Context]int{}, cleanups: map[int]int{}}
+					r := run
+					words := []uint64{1, 0, 1, 1, 0, 0, 1, 0}
+					res = rapid.VerifRunBuf(tb, words, sc.verbose, func(t *rapid.T) {
+						var hs []*vsync.Handle
+						if sc.late {
+							r.regs++
+							id := r.regs
+							t.Cleanup(func() {
+								r.cleanups[id]++
+								for _, h := range hs {
+									h.Join()
+								}
+							})
+						}
+						for i, ops := range sc.threads {
+							i, ops := i, ops
+							hs = append(hs, vsync.Go(func() {
+								for _, op := range ops {
+									r.do(t, i+1, op)
+								}
+							}))
+						}
+						if !sc.late {
+							// joined even when the property's own goroutine is stopped by a failure (e.g. inside Repeat)
+							defer func() {
+								for _, h := range hs {
+									h.Join()
+								}
+							}()
+						}
+						for _, op := range sc.mainOps {
+							r.do(t, 0, op)
+						}
+					})
+				}
+				points := 0
+				d.Explore(c, func() { tb = NewTB("C14"); tb.Quiet = !sc.verbose }, body, func(ex *vsync.Exec, choices []int) {
+					points = len(ex.Points)
+					r := run
+					replay := map[string]any{"engine": "sched", "scenario": sc.name, "schedule": choices}
+					viol := func(clause, detail string) {
+						c.Violate(Violation{Sig: "C14 " + clause + " scenario=" + sc.name, Detail: detail + "\nschedule: " + scheduleString(ex), Replay: replay, Devs: preemptions(ex.Points, len(ex.Points))})
 					}
-					for i, ops := range sc.threads {
-						i, ops := i, ops
-						hs = append(hs, vsync.Go(func() {
-							for _, op := range ops {
-								r.do(t, i+1, op)
-							}
-						}))
+					if ex.Deadlock != "" {
+						viol("deadlock", ex.Deadlock)
+						return
 					}
-					if !sc.late {
-						// joined even when the property's own goroutine is stopped by a failure (e.g. inside Repeat)
-						defer func() {
-							for _, h := range hs {
-								h.Join()
-							}
-						}()
+					for _, rc := range racesOf(ex) {
+						c.Violate(Violation{Sig: "C14 data-race " + rc, Detail: "unordered conflicting accesses: " + rc + "\nscenario " + sc.name + "\nschedule: " + scheduleString(ex), Replay: replay, Devs: preemptions(ex.Points, len(ex.Points))})
 					}
-					for _, op := range sc.mainOps {
-						r.do(t, 0, op)
+					// outcome
+					var outs []string
+					for _, e := range r.events {
+						outs = append(outs, fmt.Sprintf("%d:%s=%v", e.thread, e.op, e.out))
+					}
+					c.Outcome(strings.Join(outs, " ")+" "+kindName(res.Kind), len(ex.Points) > 0 && preemptions(ex.Points, len(ex.Points)) > 0)
+					// linearizability
+					var ops []porcupine.Operation
+					for _, e := range r.events {
+						ops = append(ops, porcupine.Operation{ClientId: e.thread, Input: e, Call: e.call, Output: e.out, Return: e.ret})
+					}
+					if !porcupine.CheckOperations(c14Model, ops) {
+						viol("not-linearizable", fmt.Sprintf("call/return history has no sequential explanation: %v", outs))
+					}
+					// lost update: any failure signal falsifies the case
+					signalled := r.lateFail
+					for _, e := range r.events {
+						if e.op == "Errorf" || e.op == "Error" || e.op == "Fail" {
+							signalled = true
+						}
+					}
+					if signalled && res.Kind != rapid.VerifFail {
+						viol("failure-lost", "a goroutine signalled a failure but the test case ended as "+kindName(res.Kind))
+					}
+					if !signalled && res.Kind != rapid.VerifOK {
+						viol("spurious-failure", "no failure signalled but the test case ended as "+kindName(res.Kind)+": "+res.Msg)
+					}
+					for id := 1; id <= r.regs; id++ {
+						if r.cleanups[id] != 1 {
+							viol("cleanup-count", fmt.Sprintf("cleanup %d of %d ran %d times", id, r.regs, r.cleanups[id]))
+						}
+					}
+					if len(r.ctxIDs) > 1 && !sc.late {
+						viol("two-contexts", fmt.Sprintf("%d different contexts were handed out during one invocation", len(r.ctxIDs)))
+					}
+					for _, live := range r.ctxLive {
+						if !live && !sc.late {
+							viol("dead-context", "Context() returned a cancelled context before the property returned")
+						}
+					}
+					for ctx := range r.ctxIDs {
+						if ctx.Err() == nil && !sc.late { // a Context() call made after the property returned is outside the statement
+							viol("context-not-cancelled", "the context is still live after the invocation ended")
+						}
+					}
+					for _, ctx := range r.lateCtx {
+						if ctx.Err() == nil {
+							viol("live-context-during-cleanup", "Context() requested from a goroutine started by a cleanup is live")
+						}
 					}
 				})
-			}
-			points := 0
-			d.Explore(c, func() { tb = NewTB("C14"); tb.Quiet = !sc.verbose }, body, func(ex *vsync.Exec, choices []int) {
-				points = len(ex.Points)
-				r := run
-				replay := map[string]any{"engine": "sched", "scenario": sc.name, "schedule": choices}
-				viol := func(clause, detail string) {
-					c.Violate(Violation{Sig: "C14 " + clause + " scenario=" + sc.name, Detail: detail + "\nschedule: " + scheduleString(ex), Replay: replay, Devs: preemptions(ex.Points, len(ex.Points))})
+				if points == 0 {
+					c.R.HarnessErr = "no scheduling points seen: the sync shim (rule r3) is not active in this build"
 				}
-				if ex.Deadlock != "" {
-					viol("deadlock", ex.Deadlock)
-					return
-				}
-				for _, rc := range racesOf(ex) {
-					c.Violate(Violation{Sig: "C14 data-race " + rc, Detail: "unordered conflicting accesses: " + rc + "\nscenario " + sc.name + "\nschedule: " + scheduleString(ex), Replay: replay, Devs: preemptions(ex.Points, len(ex.Points))})
-				}
-				// outcome
-				var outs []string
-				for _, e := range r.events {
-					outs = append(outs, fmt.Sprintf("%d:%s=%v", e.thread, e.op, e.out))
-				}
-				c.Outcome(strings.Join(outs, " ")+" "+kindName(res.Kind), len(ex.Points) > 0 && preemptions(ex.Points, len(ex.Points)) > 0)
-				// linearizability
-				var ops []porcupine.Operation
-				for _, e := range r.events {
-					ops = append(ops, porcupine.Operation{ClientId: e.thread, Input: e, Call: e.call, Output: e.out, Return: e.ret})
-				}
-				if !porcupine.CheckOperations(c14Model, ops) {
-					viol("not-linearizable", fmt.Sprintf("call/return history has no sequential explanation: %v", outs))
-				}
-				// lost update: any failure signal falsifies the case
-				signalled := r.lateFail
-				for _, e := range r.events {
-					if e.op == "Errorf" || e.op == "Error" || e.op == "Fail" {
-						signalled = true
-					}
-				}
-				if signalled && res.Kind != rapid.VerifFail {
-					viol("failure-lost", "a goroutine signalled a failure but the test case ended as "+kindName(res.Kind))
-				}
-				if !signalled && res.Kind != rapid.VerifOK {
-					viol("spurious-failure", "no failure signalled but the test case ended as "+kindName(res.Kind)+": "+res.Msg)
-				}
-				for id := 1; id <= r.regs; id++ {
-					if r.cleanups[id] != 1 {
-						viol("cleanup-count", fmt.Sprintf("cleanup %d of %d ran %d times", id, r.regs, r.cleanups[id]))
-					}
-				}
-				if len(r.ctxIDs) > 1 && !sc.late {
-					viol("two-contexts", fmt.Sprintf("%d different contexts were handed out during one invocation", len(r.ctxIDs)))
-				}
-				for _, live := range r.ctxLive {
-					if !live && !sc.late {
-						viol("dead-context", "Context() returned a cancelled context before the property returned")
-					}
-				}
-				for ctx := range r.ctxIDs {
-					if ctx.Err() == nil && !sc.late { // a Context() call made after the property returned is outside the statement
-						viol("context-not-cancelled", "the context is still live after the invocation ended")
-					}
-				}
-				for _, ctx := range r.lateCtx {
-					if ctx.Err() == nil {
-						viol("live-context-during-cleanup", "Context() requested from a goroutine started by a cleanup is live")
-					}
-				}
-			})
-			if points == 0 {
-				c.R.HarnessErr = "no scheduling points seen: the sync shim (rule r3) is not active in this build"
-			}
-		}})
+			}})
+		}
 	}
 	nfree := 60
 	if !quick {
 		nfree = 600
 	}
-	units = append(units, freeRunUnit("C14", nfree))
-	units = append(units, litmusUnit())
-	return units
+	// the conformance pass and the self-test come first: a time cap may only cut the deepest layer
+	return append([]Unit{freeRunUnit("C14", nfree), litmusUnit()}, units...)
 }
 
 func init() {
@@ -326,7 +336,7 @@ func init() {
 		ID:    "C14",
 		Level: "model_checking",
 		Rule: "E3 sched: 19 (quick) / 22 (thorough) scenarios of 2-4 controlled threads x 1-3 calls each from {Errorf, Error, Fail, Failed, Log, Name, Helper, Context, Cleanup, cleanup-that-spawns} on one real *T inside a real checkOnce (optionally while the property's own goroutine draws or calls the same methods, with and without verbose logging); " +
-			"every interleaving at sync-operation granularity within the preemption bound (3 quick, 4 thorough). Oracles per execution: no happens-before race on any instrumented field/element/map access, no deadlock, porcupine-linearizable history, failure never lost, every cleanup exactly once, one live context. " +
+			"every interleaving at sync-operation granularity within the preemption bound (3 quick; thorough: every scenario at 4, then every scenario at 6). Oracles per execution: no happens-before race on any instrumented field/element/map access, no deadlock, porcupine-linearizable history, failure never lost, every cleanup exactly once, one live context. " +
 			"distinct = distinct (per-call results, verdict) histories; non-trivial = the schedule contains at least one preemption.",
 		Assumptions: []string{"sequentially consistent interleavings at sync-operation granularity + happens-before race freedom on instrumented accesses (DRF-SC argument); goroutines are joined before the property returns",
 			"the shim's RWMutex/Once/Map/atomic.Bool semantics (writer preference, Once blocking) stand in for package sync"},
